@@ -113,6 +113,18 @@ def op (s : Sess) (ws : List String) : Sess × Option String :=
       | _, _ => (s, some "bad-op")
   | ["cls", t, sd, c, e] =>
       (s, some (toString (classify (t == "1") (sd == "1") (c == "1") (e == "1"))))
+  | ["ws", j] =>
+      -- the write set of transaction `j`: exactly the locations it published
+      match j.toNat? with
+      | some j =>
+          let p := s.mv j
+          let toks : List String := s.addrs.flatMap fun a =>
+            (if (p.basic a).isSome then [s!"B{a}"] else []) ++
+            (if p.reset a then [s!"R{a}"] else []) ++
+            (if (p.code a).isSome then [s!"C{a}"] else []) ++
+            (s.slots.filterMap fun k => if (p.slot a k).isSome then some s!"S{a}.{k}" else none)
+          (s, some (" ".intercalate toks))
+      | none => (s, some "bad-op")
   | ["dump"] => (s, some (dump s))
   | _ => (s, some "bad-op")
 
